@@ -10,6 +10,7 @@ package vh
 
 import (
 	"bytes"
+	"errors"
 	"fmt"
 	"os"
 	"path/filepath"
@@ -451,6 +452,36 @@ func checkC16File(c C16FileCase) error {
 			}
 		}
 	}
+	// a name without a compiled file is "not found" (and nothing else), so that a template served
+	// from compiled files can include it with `ignore missing`
+	if _, err := twig.NewCompiledLoader(dir).Load(c.Name + "-absent"); err == nil || !errors.Is(err, twig.ErrTemplateNotFound) {
+		return fmt.Errorf("CompiledLoader.Load of a name without a file: error %v does not match ErrTemplateNotFound", err)
+	}
+	eI := newEngine(map[string]string{"im": "A{% include 'zz-absent' ignore missing %}B{{ x }}"})
+	if r := guard(func() (string, error) { return "", cl.SaveCompiled(eI, "im") }); r.Failed() {
+		return fmt.Errorf("SaveCompiled failed: %v", r)
+	}
+	eM := twig.New()
+	eM.RegisterLoader(twig.NewCompiledLoader(dir))
+	if r := render(eM, "im", map[string]interface{}{"x": "X"}); r.Failed() || r.Out != "ABX" {
+		return fmt.Errorf("a template with an `ignore missing` include of an absent name, served from compiled files, renders %v; from source it renders \"ABX\"", r)
+	}
+	// a template registered under a name of the caller's choice (a parsed template carries none of
+	// its own) is saved under that name and read back under it
+	if tp, err := eA.ParseTemplate(src); err == nil {
+		eA.RegisterTemplate("given-"+c.Name, tp)
+		if r := guard(func() (string, error) { return "", cl.SaveCompiled(eA, "given-"+c.Name) }); r.Failed() {
+			return fmt.Errorf("SaveCompiled of a template registered with RegisterTemplate failed: %v", r)
+		}
+		clN := twig.NewCompiledLoader(dir)
+		var got string
+		if r := guard(func() (string, error) { s, err := clN.Load("given-" + c.Name); got = s; return "", err }); r.Failed() || got != src || !clN.Exists("given-"+c.Name) {
+			return fmt.Errorf("a template registered as %q with RegisterTemplate and saved: Load gives %d bytes (%v), Exists %v; the source has %d bytes", "given-"+c.Name, len(got), r, clN.Exists("given-"+c.Name), len(src))
+		}
+		if r := render(eM, "given-"+c.Name, map[string]interface{}{"x": "X"}); r.Failed() || r.Out != want.Out {
+			return fmt.Errorf("a template registered as %q with RegisterTemplate, saved and served from the compiled file renders %v, the source renders %v", "given-"+c.Name, r, want)
+		}
+	}
 	// LoadAll on a fresh engine
 	eB := twig.New()
 	if r := guard(func() (string, error) { return "", twig.NewCompiledLoader(dir).LoadAll(eB) }); r.Failed() {
@@ -464,7 +495,7 @@ func checkC16File(c C16FileCase) error {
 }
 
 func TestC16Files(t *testing.T) {
-	r := NewRec(t, "C16", "templates (text over all bytes + a print + an if, sizes up to 100 KB) saved with CompiledLoader.SaveCompiled and read back with Load / Exists / GetModifiedTime / LoadAll on a fresh engine, rewritten from a different template of the same length and read again by the same loader instance, CompileAll run twice with changed sources; oracle: identical source and output; non-trivial = source >= 256 bytes or non-ASCII; distinct by (name, source)")
+	r := NewRec(t, "C16", "templates (text over all bytes + a print + an if, sizes up to 100 KB) saved with CompiledLoader.SaveCompiled and read back with Load / Exists / GetModifiedTime / LoadAll on a fresh engine, rewritten from a different template of the same length and read again by the same loader instance, CompileAll run twice with changed sources, a name without a file (`ignore missing` through the compiled loader), a nameless parsed template registered with RegisterTemplate; oracle: identical source and output; non-trivial = source >= 256 bytes or non-ASCII; distinct by (name, source)")
 	defer r.Flush()
 	rapid.Check(t, func(rt *rapid.T) {
 		text, _ := fixTextBeforeTag(breakDelims(genText(rt, 40)))
